@@ -153,7 +153,7 @@ func init() {
 			"every non-empty diff is applied twice, to a fresh parse of a and to the very operand it was computed from (whose arrays its hunks may still refer to); non-trivial = the diff has at least one hunk; distinct = distinct (a, b, options) texts",
 		Floors: map[string]int{
 			"diff_nonempty": 5000, "hunks>=2": 1000, "index_shift(>=2 hunks in one array)": 300, "hunk_nested_arrays": 300,
-			"hunk_set_multi": 100, "hunk_keyed_member": 100, "hunk_merge": 100, "hunk_multiset": 100, "void_involved": 20, "deep_chain_pairs": 5000, "yaml_read_pairs": 3000, "applied_to_the_operand_itself": 5000, "bulky_element_pairs": 1000,
+			"hunk_set_multi": 100, "hunk_keyed_member": 100, "hunk_merge": 100, "hunk_multiset": 100, "void_involved": 20, "deep_chain_pairs": 5000, "yaml_read_pairs": 3000, "applied_to_the_operand_itself": 5000, "bulky_element_pairs": 1000, "copies_made_by_a_multiset_patch": 1000,
 		},
 		Assumptions: []string{
 			"jd values are built with jd's own ReadJsonString / ReadYamlString from generated text",
@@ -241,6 +241,84 @@ func init() {
 			},
 		})
 	}
+	p.Strata = append(p.Strata, mon.Stratum{
+		Name: "copies-made-by-a-multiset-patch",
+		N:    qt(1500, 100000),
+		Run: func(c *mon.Ctx, i int) {
+			// a is what a MULTISET (or SET) Patch returned after raising the multiplicity of a container member;
+			// b changes ONE of the copies inside. If the copies shared storage, patching one would change all (F34).
+			r := c.R
+			member := gen.Pick(r, []any{map[string]any{"k": 1.0, "l": []any{1.0}}, []any{1.0, map[string]any{"k": 1.0}}, map[string]any{"k": map[string]any{"n": 1.0}}})
+			x := []any{ref.Clone(member), "z"}
+			n := r.Range(2, 4)
+			var want []any
+			for k := 0; k < n; k++ {
+				want = append(want, ref.Clone(member))
+			}
+			want = append(want, "z")
+			w := i % 2
+			xText, wText := ref.ToJSON(gen.Wrap(x, w)), ref.ToJSON(gen.Wrap(want, w))
+			mkA := func() jd.JsonNode {
+				P, err := ReadJ(xText).Patch(ReadJ(xText).Diff(ReadJ(wText), jd.MULTISET))
+				if err != nil {
+					return nil
+				}
+				return P
+			}
+			A := mkA()
+			if A == nil {
+				c.Skip("the building patch failed")
+				return
+			}
+			aText := A.Json()
+			a := ref.MustJSON(aText)
+			b := ref.Clone(a)
+			// change the k-th copy only
+			which, seen := r.Intn(n), 0
+			var edit func(v any) any
+			edit = func(v any) any {
+				switch t := v.(type) {
+				case []any:
+					for j := range t {
+						if ref.Eq(t[j], member, ref.List) {
+							if seen == which {
+								switch m := t[j].(type) {
+								case map[string]any:
+									m["k"] = 2.0
+								case []any:
+									t[j] = append(m, "new")
+								}
+							}
+							seen++
+						} else {
+							t[j] = edit(t[j])
+						}
+					}
+				case map[string]any:
+					for _, k := range ref.SortedKeys(t) {
+						t[k] = edit(t[k])
+					}
+				}
+				return v
+			}
+			b = edit(b)
+			bText := ref.ToJSON(b)
+			c.Input("a", aText)
+			c.Input("b", bText)
+			c.Input("a_built_by", "MULTISET Patch that raised a multiplicity")
+			c.Feature("copies_made_by_a_multiset_patch")
+			c.Nontrivial(joinKey("copies", aText, bText))
+			d := A.Diff(ReadJ(bText))
+			P, err := A.Patch(d)
+			if err != nil || P == nil {
+				c.Violation("a.Patch(a.Diff(b)) failed on a document returned by a MULTISET Patch: "+fmt.Sprint(err), map[string]any{"diff": ref.HunksString(Hunks(d))})
+				return
+			}
+			if got := Plain(P); !ref.Eq(got, b, ref.List) {
+				c.Violation("a.Patch(a.Diff(b)) on a document returned by a MULTISET Patch is not b: the copies of a member share storage", map[string]any{"diff": ref.HunksString(Hunks(d)), "patched": ref.ToJSON(got)})
+			}
+		},
+	})
 	for _, o := range []OptSet{OptNone, OptSetO, OptMset} {
 		o := o
 		p.Strata = append(p.Strata, mon.Stratum{
